@@ -212,6 +212,11 @@ def _run_case(case, rec, mon=None):
                 rec.count("banks_asked_in_turn_with_a_counterpart")
             except Exception:
                 partner = None
+        if bank is not None and case["idx"] % 3 == 0:
+            from ..common import poke
+
+            poke(bank)  # every public attribute read, repr(), ==, hash() before the first response is asked for
+            rec.count("banks_inspected_before_the_first_request")
         if bank is not None:
             mon.cfg_of[id(bank)] = cfg
             nf = bank.num_filts
